@@ -177,8 +177,9 @@ def write_world(base, f):
     open(os.path.join(base, "prices2.db"), "w").write(PRICES.replace(" 2 EUR", " 7 EUR"))
 
 
-def input_scenarios(run):
-    """fixed worlds: every input option against the same value written into the configuration file"""
+def input_scenarios(run, only=None):
+    """fixed worlds: every input option against the same value written into the configuration file
+    (only: the name of the one scenario to run, for replays)"""
     import subprocess
     root = os.path.join(CACHE, "c19i-%d" % os.getpid())
     shutil.rmtree(root, ignore_errors=True)
@@ -220,7 +221,8 @@ def input_scenarios(run):
     out = []
     try:
         def pair(name, a_conf, a_args, b_conf):
-            out.append((name, run_cli(["--config", a_conf] + a_args), run_cli(["--config", b_conf])))
+            if only is None or name == only:
+                out.append((name, run_cli(["--config", a_conf] + a_args), run_cli(["--config", b_conf])))
         pair("fs_dir_ext", conf("s1a"), ["--input.fs.dir", os.path.join(root, "alt"), "--input.fs.ext", "jrn"], conf("s1b", fs=("alt", "jrn")))
         pair("input_file", conf("s2a"), ["--input.file", os.path.join(root, "one", "single.txn")], conf("s2b", fs=("one", "txn")))
         pair("storage_git", conf("s3a", git=G), ["--input.storage", "git"], conf("s3b", storage="git", git=G))
@@ -240,7 +242,8 @@ def input_scenarios(run):
     return out
 
 
-def strict_scenarios(run):
+def strict_scenarios(run, only=None):
+    """(only: the name of the one scenario to run, for replays)"""
     root = os.path.join(CACHE, "c19s-%d" % os.getpid())
     shutil.rmtree(root, ignore_errors=True)
     variants = {
@@ -255,6 +258,9 @@ def strict_scenarios(run):
         for vname, text in variants.items():
             for file_strict in (False, True):
                 for cli_strict in (False, True):
+                    if only is not None and only != "%s/file=%s/cli=%s" % (vname, file_strict, cli_strict):
+                        k += 1
+                        continue
                     f = {"strict": file_strict, "audit": False, "reports": ["balance"], "exports": [], "accounts": None, "bal": None,
                          "balgrp": None, "reg": None, "eq": None, "commodity": None, "lookup": 0, "db": False, "group_by": 2, "eq_declared": True}
                     a, b = os.path.join(root, "a%d" % k), os.path.join(root, "b%d" % k)
@@ -288,6 +294,50 @@ def main(run):
     for _ in range(n):
         pairs.append((file_fix(rand_file(r)), rand_cli(r, p=r.choice([0.15, 0.35, 0.6]))))
     # ---- (a) Settings::try_from through the harness vs the model
+    distinct = set()
+    stages = {}
+    judge_settings(run, pairs, distinct, stages)
+    # ---- (b) the real command line: options vs options written into the file
+    root = os.path.join(CACHE, "c19-%d" % os.getpid())
+    m = 40 if run.tier == "quick" else 400
+    cli_pairs = pairs[:len(pairs) - n] + [pairs[len(pairs) - n + k] for k in range(min(m, n))]
+
+    def one(k):
+        f, c = cli_pairs[k]
+        return cli_pair(root, k, f, c, use_out=(k % 2 == 0))          # every other pair writes files: exports exist only then
+
+    try:
+        with ThreadPoolExecutor(max_workers=NPROC) as ex:
+            outs = list(ex.map(one, range(len(cli_pairs))))
+    finally:
+        shutil.rmtree(root, ignore_errors=True)
+    ncli = 0
+    for k, (rc1, so1, se1), (rc2, so2, se2) in outs:
+        f, c = cli_pairs[k]
+        ncli += 1
+        judge_cli(run, f, c, k % 2 == 0, (rc1, so1, se1), (rc2, so2, se2), distinct)
+    # ---- (d) strict mode from the file vs from the command line, on journals that use an undeclared
+    #      tag / account / commodity: every use of strict mode must follow the effective value
+    for name, a, b in strict_scenarios(run):
+        judge_strict(run, name, a, b, distinct)
+    # ---- (c) input storage / location options vs the same values in the file
+    for name, a, b in input_scenarios(run):
+        judge_input(run, name, a, b, distinct)
+    run.cov["distinct_nontrivial"] = len(distinct)
+    run.cov["rule"] = ("random (configuration file, option subset) pairs over strict, audit, report/export targets, global/per-report/equity "
+                       "selectors, report commodity, price db and lookup type (+ --price.before), group-by; (a) Settings::try_from effective "
+                       "settings vs model + per-key oracle; (b) real CLI: options vs merged file, stdout and exit status compared; "
+                       "distinct = distinct outputs")
+    run.notes["stages"] = stages
+    run.notes["cli_pairs"] = ncli
+    import t06_text   # extra stage (extension T06): a whole run of the binary (console text / output files) against T06_run.run_console / run_files
+    with run.in_stage(lambda rep: "T07" if (rep.get("world") or {}).get("t07") else "T06"):      # for ./check C19 --replay (common.replay_begin)
+        t06_text.run_stage(run, n=(25 if run.tier == "quick" else 300))
+    return run.finish(info)
+
+
+def judge_settings(run, pairs, distinct, stages):
+    """(a): Settings::try_from through the harness vs the model and the per-key oracle"""
     reqs = []
     for f, c in pairs:
         reqs.append({"conf": {"toml": toml_of(f), "accounts": ACCOUNTS if f.get("eq_declared", True) else ACCOUNTS_NO_EQ,
@@ -299,7 +349,6 @@ def main(run):
             rq["overlaps"]["db_path"] = "prices.db"
     res = harness_run(reqs)
     terms, idx = [], []
-    stages = {}
     for i, ((f, c), rr) in enumerate(zip(pairs, res)):
         st = rr.get("stage")
         stages[st] = stages.get(st, 0) + 1
@@ -314,7 +363,6 @@ def main(run):
     vals, errs = coq_eval("C19", IMPORTS, terms)
     if errs:
         raise Infra("coq evaluation failed: " + errs[0])
-    distinct = set()
     for i, v in zip(idx, vals):
         bits = as_N(v)
         if bits is None:
@@ -327,100 +375,129 @@ def main(run):
         if not (bits & 2):
             run.violation("effective settings contradict 'option overrides the file key, file applies when the option is absent'",
                           {"file": f, "cli_options": c, "config_toml": toml_of(f), "overlaps": overlaps_of(c),
-                           "implementation_settings": res[i].get("results"), "stage": res[i].get("stage")})
+                           "implementation_settings": res[i].get("results"), "stage": res[i].get("stage"), "case": {"part": "settings"}})
         elif not (bits & 1):
             run.cov["disagreements_checked"] += 1
             run.violation("correspondence broken: Config.effective differs from Settings::try_from",
                           {"correspondence": "C19_corr.c19_case", "file": f, "cli_options": c,
-                           "implementation": res[i].get("results", res[i].get("err"))}, found_input=False)
-    # ---- (b) the real command line: options vs options written into the file
-    root = os.path.join(CACHE, "c19-%d" % os.getpid())
-    m = 40 if run.tier == "quick" else 400
-    cli_pairs = pairs[:len(pairs) - n] + [pairs[len(pairs) - n + k] for k in range(min(m, n))]
+                           "implementation": res[i].get("results", res[i].get("err")), "case": {"part": "settings"}}, found_input=False)
 
-    def one(k):
-        f, c = cli_pairs[k]
-        base = os.path.join(root, "p%d" % k)
-        write_world(base, f)
-        use_out = (k % 2 == 0)          # every other pair writes files: exports exist only then
-        def outargs(b):
-            return ["--output.dir", os.path.join(b, "out"), "--output.prefix", "p"] if use_out else []
-        def outfiles(b):
-            d = os.path.join(b, "out")
-            return {f: open(os.path.join(d, f), "rb").read().decode("utf-8", "replace") for f in sorted(os.listdir(d))} if os.path.isdir(d) else {}
-        if use_out:
-            os.makedirs(os.path.join(base, "out"))
-        rc1, so1, se1 = run_cli(["--config", os.path.join(base, "tackler.toml")] + cli_args(c, base) + outargs(base))
-        files1 = outfiles(base)
-        fm = merged(f, c)
-        base2 = os.path.join(root, "q%d" % k)
-        write_world(base2, fm)
-        if fm["db"] == "cli":
-            shutil.copyfile(os.path.join(base2, "prices2.db"), os.path.join(base2, "prices.db"))
-        rest = ["--price.before", c["before"]] if c["before"] is not None else []
-        if use_out:
-            os.makedirs(os.path.join(base2, "out"))
-        rc2, so2, se2 = run_cli(["--config", os.path.join(base2, "tackler.toml")] + rest + outargs(base2))
-        files2 = outfiles(base2)
-        # announced paths differ by construction: compare the file CONTENTS, and stdout without the paths
-        strip = lambda t, b: t.replace(b, "<dir>")
-        so1 = strip(so1, base) + "".join("\n== %s ==\n%s" % kv for kv in files1.items())
-        so2 = strip(so2, base2) + "".join("\n== %s ==\n%s" % kv for kv in files2.items())
-        return k, (rc1, so1, se1), (rc2, so2, se2)
 
-    try:
-        with ThreadPoolExecutor(max_workers=NPROC) as ex:
-            outs = list(ex.map(one, range(len(cli_pairs))))
-    finally:
-        shutil.rmtree(root, ignore_errors=True)
-    ncli = 0
-    for k, (rc1, so1, se1), (rc2, so2, se2) in outs:
-        f, c = cli_pairs[k]
-        run.cov["evaluations"] += 1
-        ncli += 1
-        distinct.add(so1[:4000])
-        same = (rc1 == 0) == (rc2 == 0) and (rc1 != 0 or so1 == so2)
-        if not same:
-            run.violation("tackler with command-line options behaves differently from tackler with the same values written into the configuration file",
-                          {"file": f, "cli_options": c, "command_line": cli_args(c, "<dir>"), "config_toml": toml_of(f),
-                           "merged_config_toml": toml_of(merged(f, c)), "exit_with_options": rc1, "exit_with_merged_file": rc2,
-                           "stdout_with_options": so1[:3000], "stdout_with_merged_file": so2[:3000], "stderr": (se1[-300:], se2[-300:])})
-    # ---- (d) strict mode from the file vs from the command line, on journals that use an undeclared
-    #      tag / account / commodity: every use of strict mode must follow the effective value
-    for name, a, b in strict_scenarios(run):
-        run.cov["evaluations"] += 1
-        (rc1, so1, se1), (rc2, so2, se2) = a, b
-        distinct.add((name, rc1 == 0))
-        if not ((rc1 == 0) == (rc2 == 0) and (rc1 != 0 or so1 == so2)):
-            run.violation("strict-mode scenario '%s': --strict.mode and the same value written into the file give different results" % name,
-                          {"scenario": name, "exit_with_option": rc1, "exit_with_file": rc2, "stdout_with_option": so1[:1500],
-                           "stdout_with_file": so2[:1500], "stderr": (se1[-300:], se2[-300:])})
-    # ---- (c) input storage / location options vs the same values in the file
-    for name, a, b in input_scenarios(run):
-        run.cov["evaluations"] += 1
-        (rc1, so1, se1), (rc2, so2, se2) = a, b
-        distinct.add(so1[:2000])
-        if not ((rc1 == 0) == (rc2 == 0) and (rc1 != 0 or so1 == so2)):
-            kf = [f for f in load_findings("C19") if f.get("status") == "open" and f.get("class") == name]
-            if kf:
-                run.known_finding(kf[0]["what"])
-            else:
-                run.violation("input option scenario '%s': options and the same values written into the file give different results" % name,
-                              {"scenario": name, "exit_with_options": rc1, "exit_with_file": rc2, "stdout_with_options": so1[:2500],
-                               "stdout_with_file": so2[:2500], "stderr": (se1[-300:], se2[-300:])})
-    run.cov["distinct_nontrivial"] = len(distinct)
-    run.cov["rule"] = ("random (configuration file, option subset) pairs over strict, audit, report/export targets, global/per-report/equity "
-                       "selectors, report commodity, price db and lookup type (+ --price.before), group-by; (a) Settings::try_from effective "
-                       "settings vs model + per-key oracle; (b) real CLI: options vs merged file, stdout and exit status compared; "
-                       "distinct = distinct outputs")
-    run.notes["stages"] = stages
-    run.notes["cli_pairs"] = ncli
-    import t06_text   # extra stage (extension T06): a whole run of the binary (console text / output files) against T06_run.run_console / run_files
-    t06_text.run_stage(run, n=(25 if run.tier == "quick" else 300))
-    return run.finish(info)
+def cli_pair(root, k, f, c, use_out):
+    """(b): tackler with the options c on the file f, and tackler on the merged file (use_out: both write files)"""
+    base = os.path.join(root, "p%d" % k)
+    write_world(base, f)
+    def outargs(b):
+        return ["--output.dir", os.path.join(b, "out"), "--output.prefix", "p"] if use_out else []
+    def outfiles(b):
+        d = os.path.join(b, "out")
+        return {f: open(os.path.join(d, f), "rb").read().decode("utf-8", "replace") for f in sorted(os.listdir(d))} if os.path.isdir(d) else {}
+    if use_out:
+        os.makedirs(os.path.join(base, "out"))
+    rc1, so1, se1 = run_cli(["--config", os.path.join(base, "tackler.toml")] + cli_args(c, base) + outargs(base))
+    files1 = outfiles(base)
+    fm = merged(f, c)
+    base2 = os.path.join(root, "q%d" % k)
+    write_world(base2, fm)
+    if fm["db"] == "cli":
+        shutil.copyfile(os.path.join(base2, "prices2.db"), os.path.join(base2, "prices.db"))
+    rest = ["--price.before", c["before"]] if c["before"] is not None else []
+    if use_out:
+        os.makedirs(os.path.join(base2, "out"))
+    rc2, so2, se2 = run_cli(["--config", os.path.join(base2, "tackler.toml")] + rest + outargs(base2))
+    files2 = outfiles(base2)
+    # announced paths differ by construction: compare the file CONTENTS, and stdout without the paths
+    strip = lambda t, b: t.replace(b, "<dir>")
+    so1 = strip(so1, base) + "".join("\n== %s ==\n%s" % kv for kv in files1.items())
+    so2 = strip(so2, base2) + "".join("\n== %s ==\n%s" % kv for kv in files2.items())
+    return k, (rc1, so1, se1), (rc2, so2, se2)
+
+
+def judge_cli(run, f, c, use_out, a, b, distinct):
+    (rc1, so1, se1), (rc2, so2, se2) = a, b
+    run.cov["evaluations"] += 1
+    distinct.add(so1[:4000])
+    same = (rc1 == 0) == (rc2 == 0) and (rc1 != 0 or so1 == so2)
+    if not same:
+        run.violation("tackler with command-line options behaves differently from tackler with the same values written into the configuration file",
+                      {"file": f, "cli_options": c, "command_line": cli_args(c, "<dir>"), "config_toml": toml_of(f),
+                       "merged_config_toml": toml_of(merged(f, c)), "exit_with_options": rc1, "exit_with_merged_file": rc2,
+                       "stdout_with_options": so1[:3000], "stdout_with_merged_file": so2[:3000], "stderr": (se1[-300:], se2[-300:]),
+                       "case": {"part": "cli", "use_out": bool(use_out)}})
+
+
+def judge_strict(run, name, a, b, distinct):
+    run.cov["evaluations"] += 1
+    (rc1, so1, se1), (rc2, so2, se2) = a, b
+    distinct.add((name, rc1 == 0))
+    if not ((rc1 == 0) == (rc2 == 0) and (rc1 != 0 or so1 == so2)):
+        run.violation("strict-mode scenario '%s': --strict.mode and the same value written into the file give different results" % name,
+                      {"scenario": name, "exit_with_option": rc1, "exit_with_file": rc2, "stdout_with_option": so1[:1500],
+                       "stdout_with_file": so2[:1500], "stderr": (se1[-300:], se2[-300:]), "case": {"part": "strict"}})
+
+
+def judge_input(run, name, a, b, distinct):
+    run.cov["evaluations"] += 1
+    (rc1, so1, se1), (rc2, so2, se2) = a, b
+    distinct.add(so1[:2000])
+    if not ((rc1 == 0) == (rc2 == 0) and (rc1 != 0 or so1 == so2)):
+        kf = [f for f in load_findings("C19") if f.get("status") == "open" and f.get("class") == name]
+        if kf:
+            run.known_finding(kf[0]["what"])
+        else:
+            run.violation("input option scenario '%s': options and the same values written into the file give different results" % name,
+                          {"scenario": name, "exit_with_options": rc1, "exit_with_file": rc2, "stdout_with_options": so1[:2500],
+                           "stdout_with_file": so2[:2500], "stderr": (se1[-300:], se2[-300:]), "case": {"part": "input"}})
 
 
 def replay(run, path):
-    j = json.load(open(path))
-    print(json.dumps(j, indent=1, ensure_ascii=False)[:6000])
-    return 0
+    """by part: (a) the stored (file, options) pair through Settings::try_from + c19_case; (b) the same pair through the
+    tackler binary, options vs merged file; (c)/(d) the stored scenario alone; replays of the T06 / T07 whole-run stage go
+    to t06.replay / t07.replay (common.replay_begin)"""
+    j, rp, rc = replay_begin(run, path)
+    if rc is not None:
+        return rc
+    cs = rp.get("case") if isinstance(rp.get("case"), dict) else {}
+    part = cs.get("part")
+    if part is None and isinstance(rp.get("file"), dict) and isinstance(rp.get("cli_options"), dict) and "command_line" not in rp:
+        part = "settings"                                   # files written before the key existed carry everything needed
+    if part is None and "scenario" in rp:
+        part = "strict" if "exit_with_option" in rp else "input"
+    ok_pair = isinstance(rp.get("file"), dict) and isinstance(rp.get("cli_options"), dict)
+    if part not in ("settings", "cli", "strict", "input") or (part in ("settings", "cli") and not ok_pair) or \
+            (part in ("strict", "input") and not isinstance(rp.get("scenario"), str)):
+        return replay_print(j)
+    print(j.get("what"))
+    distinct = set()
+    if part in ("settings", "cli"):
+        f, c = rp["file"], rp["cli_options"]
+        print("configuration file:\n%s\noptions: %s" % (toml_of(f), " ".join(cli_args(c, "<dir>"))))
+    if part == "settings":
+        corr_build("C19")
+        harness_build()
+        stages = {}
+        judge_settings(run, [(f, c)], distinct, stages)
+        print("Settings::try_from now ends at: %s" % stages)
+        why = "the effective settings of the stored (file, options) pair follow 'option overrides the file key' and the model agrees"
+    elif part == "cli":
+        cli_build()
+        root = os.path.join(CACHE, "c19-replay-%d" % os.getpid())
+        try:
+            k, a, b = cli_pair(root, 0, f, c, bool(cs.get("use_out")))
+        finally:
+            shutil.rmtree(root, ignore_errors=True)
+        print("exit status with options %s, with the merged file %s" % (a[0], b[0]))
+        judge_cli(run, f, c, bool(cs.get("use_out")), a, b, distinct)
+        why = "tackler with the stored options and tackler with the merged configuration file behave alike (exit status %s / %s)" % (a[0], b[0])
+    else:
+        cli_build()
+        name = rp["scenario"]
+        got = strict_scenarios(run, only=name) if part == "strict" else input_scenarios(run, only=name)
+        if not got:
+            print("the scenario %r does not exist in this version of the check" % name)
+            return replay_print(j)
+        for nm, a, b in got:
+            print("scenario %s: exit status with option(s) %s, with the file %s" % (nm, a[0], b[0]))
+            (judge_strict if part == "strict" else judge_input)(run, nm, a, b, distinct)
+        why = "scenario %s: option(s) and the same value(s) written into the file give the same result" % name
+    return replay_verdict(run, path, j, why)
